@@ -8,8 +8,8 @@ alarm for the negative control M25.
 import os
 os.environ["VERIF_EVIDENCE_DIR"] = "/verif/.build/evidence-scratch"
 import sys, os, subprocess, re, json
-D = sys.argv[1] if len(sys.argv) > 1 else "/tmp/mut/cat"
-EXPECT = {"M01":"C18","M02":"C18","M03":"C18","M04":"C18","M05":"C06","M06":"C14","M07":"C14","M08":"C09","M09":"C09","M10":"C08",
+D = sys.argv[1] if len(sys.argv) > 1 else "/verif/design-notes/mutant-patches"
+EXPECT = {"M01":"C18","M02":"C18","M03":"C18","M04":"C18","M05":"C06","M06":"C14","M07":"C14","M08":"C14 C09","M09":"C14 C09","M10":"C08",
           "M11":"C01 C03","M12":"C07 C15","M13":"C15 C04","M14":"C07 C10","M15":"C07 C10","M16":"C12","M17":"C12","M18":"C04","M19":"C02",
           "M20":"C02 C03","M21":"C16","M22":"C17 C13","M23":"C05","M25":"C02 C13 C07"}
 only = sys.argv[2:]
